@@ -13,7 +13,12 @@ ap = argparse.ArgumentParser()
 ap.add_argument('--id', required=True); ap.add_argument('--prop', required=True); ap.add_argument('--src', required=True)
 ap.add_argument('--needs', default=''); ap.add_argument('--props', default=None); ap.add_argument('--skip-tests', action='store_true')
 ap.add_argument('--what', default='')
+ap.add_argument('--wt', default=None, help='scratch worktree to use (default /tmp/epp_seedwt); lets several intakes run side by side')
+ap.add_argument('--jobs', default=None)
 a = ap.parse_args()
+if a.wt:
+    WT = a.wt
+DEMO = '/tmp/epp_seed_demo_' + a.id
 
 
 def sh(cmd, **kw):
@@ -24,7 +29,7 @@ if not os.path.exists(WT):
     r = sh('git -C /repo worktree add --detach %s HEAD' % WT)
     if r.returncode != 0:
         print(r.stdout); sys.exit(2)
-sh('git -C %s checkout -- . && git -C %s clean -fdq -e _b' % (WT, WT))
+sh('git -C %s checkout -- . && git -C %s clean -fdq -e _b -e _mut -e _eq -e _PROMPT.txt' % (WT, WT))
 sh('git -C %s checkout --detach -q $(git -C /repo rev-parse HEAD)' % WT)
 patch = os.path.join(a.src, 'patch.diff')
 demo = os.path.join(a.src, 'demo.cpp')
@@ -32,11 +37,11 @@ log = {}
 r = sh('git -C %s apply --check %s' % (WT, patch))
 if r.returncode != 0:
     print('patch does not apply to /repo HEAD:\n' + r.stdout); sys.exit(1)
-build = 'g++ -std=c++17 -O1 -g -pthread -I%s/include %s -o /tmp/epp_seed_demo' % (WT, demo)
+build = 'g++ -std=c++17 -O1 -g -pthread -I%s/include %s -o %s' % (WT, demo, DEMO)
 r = sh(build)
 if r.returncode != 0:
     print('demo does not build on the clean tree:\n' + r.stdout[-2000:]); sys.exit(1)
-r = sh('timeout 300 /tmp/epp_seed_demo')
+r = sh('timeout 300 ' + DEMO)
 log['demo_clean_exit'] = r.returncode
 print('demo on clean tree: exit %d' % r.returncode)
 if r.returncode != 0:
@@ -45,7 +50,7 @@ sh('git -C %s apply %s' % (WT, patch))
 r = sh(build)
 if r.returncode != 0:
     print('demo does not build with the patch:\n' + r.stdout[-2000:]); sys.exit(1)
-r = sh('timeout 300 /tmp/epp_seed_demo')
+r = sh('timeout 300 ' + DEMO)
 log['demo_patched_exit'] = r.returncode
 log['demo_patched_output'] = r.stdout[-1200:]
 print('demo with patch: exit %d' % r.returncode)
@@ -53,7 +58,13 @@ if r.returncode == 0:
     print('REJECTED: demo passes with the patch'); sys.exit(1)
 if not a.skip_tests:
     t0 = time.time()
-    r = sh('EPP_REPO=%s EPP_TEST_BUILD=%s/_b %s/bin/repo-tests.sh' % (WT, WT, V))
+    cmd = '%sEPP_REPO=%s EPP_TEST_BUILD=%s/_b %s/bin/repo-tests.sh' % (('CMAKE_BUILD_PARALLEL_LEVEL=%s ' % a.jobs) if a.jobs else '', WT, WT, V)
+    r = sh(cmd)
+    # the repository's multi-threaded timing tests abort now and then on a heavily loaded machine (seen on the unchanged tree as well):
+    # one repetition, recorded
+    if 'All tests passed' not in r.stdout:
+        log['unit_tests_first_attempt'] = r.stdout.strip().splitlines()[-1] if r.stdout.strip() else ''
+        r = sh(cmd)
     log['unit_tests'] = r.stdout.strip().splitlines()[-1] if r.stdout.strip() else ''
     print('unit tests with patch (%.0fs): %s' % (time.time() - t0, log['unit_tests']))
     if 'All tests passed' not in r.stdout:
